@@ -3,6 +3,7 @@ package c05
 
 import (
 	"bytes"
+	"fmt"
 	"strings"
 
 	"go.pennock.tech/tabular/csv"
@@ -17,6 +18,22 @@ const ID = "C05"
 // Case is a build history of string cells.
 type Case struct {
 	Script gen.Script `json:"script"`
+	// Fault > 0: before the render that is checked, the same wrapper renders into a writer whose write
+	// number Fault-1 accepts half of its bytes and fails; that must not leave anything behind.
+	Fault int `json:"fault,omitempty"`
+}
+
+type halfWriter struct {
+	k, calls int
+}
+
+func (w *halfWriter) Write(p []byte) (int, error) {
+	i := w.calls
+	w.calls++
+	if i == w.k {
+		return len(p) / 2, fmt.Errorf("injected write failure")
+	}
+	return len(p), nil
 }
 
 // Expected computes the records the statement demands from the model.
@@ -45,7 +62,14 @@ func CheckCase(c Case) *ev.Violation {
 	if t.NColumns() != ncols {
 		return ev.V("NColumns()=%d but the build history has %d columns", t.NColumns(), ncols)
 	}
+	gen.ScrambleRowsCopy(t) // the caller may do what it likes with the copy it was handed
 	w := csv.Wrap(t)
+	if c.Fault > 0 {
+		hw := &halfWriter{k: c.Fault - 1}
+		if err := w.RenderTo(hw); err == nil && hw.calls > hw.k {
+			return ev.V("write %d failed but RenderTo returned nil", hw.k)
+		}
+	}
 	out, err := w.Render()
 	if ncols == 0 {
 		if err == nil {
@@ -145,6 +169,9 @@ func Classify(c Case) (bool, interface{}, []string) {
 	}
 	if hdr {
 		classes = append(classes, "header")
+	}
+	if c.Fault > 0 {
+		classes = append(classes, "failed-render-first")
 	}
 	return nt, nil, dedup(classes)
 }
